@@ -610,6 +610,7 @@ def run(ctx):
             break
     fault_cases(ctx, rng, ctx.n(400, 6000), batch)
     zero_cases(ctx, rng, batch)
+    boundary_cases(ctx)
     shape_cases(ctx, rng, batch)
     compare_batch(ctx, batch)
     ctx.assumption('A-yaml', True, '%d generated documents parsed to the generated trees' % ctx.stats['files_written'])
@@ -679,6 +680,39 @@ def zero_cases(ctx, rng, batch):
     # range starting at 0 K
     g = {'Tref': Fraction('298.15'), 'H': Fraction(1), 'S': None, 'cp': [], 'range': (Fraction(0), Fraction(1000))}
     check_fixed(ctx, g, {'T': 'K', 'H': 'J/mol'}, 'bare', batch)
+
+
+def boundary_cases(ctx):
+    """coincidences that decide something: the reference temperature exactly on a bound of the range, the first / last table
+    temperature exactly on a bound — with the coinciding values written in DIFFERENT temperature units (per-value explicit
+    units).  The same data with everything in K loads, so every other presentation must load too (finding YU1 when a
+    one-ulp conversion error of the prefixed unit decides the comparison)."""
+    name = 'C(H)4'
+    shapes = [
+        ('tref_on_lower', Fraction('298.15'), (Fraction('298.15'), Fraction(1000)), [(Fraction(300), Fraction(2)), (Fraction(1000), Fraction(3))]),
+        ('tref_on_upper', Fraction('1500'), (Fraction('298.15'), Fraction(1500)), [(Fraction(300), Fraction(2)), (Fraction(1000), Fraction(3))]),
+        ('table_on_bounds', Fraction('400'), (Fraction('300.3'), Fraction('1000.7')), [(Fraction('300.3'), Fraction(2)), (Fraction('1000.7'), Fraction(3))]),
+        ('tref_on_lower_odd', Fraction('273.15'), (Fraction('273.15'), Fraction(900)), [(Fraction(300), Fraction(2)), (Fraction(800), Fraction(3))]),
+    ]
+    for tag, tref, rng_, cp in shapes:
+        for ur in L.UNITS['T']:
+            for ut in ('K', ur):
+                fr, ft = L.unit_info(ur)[0], L.unit_info(ut)[0]
+                entry = {'T_ref': Q(tref / ft, ut), 'ND_H_ref': Fraction(3, 2), 'ND_S_ref': Fraction(5, 2),
+                         'ND_Cp_data': [[Q(T / ft, ut), c] for T, c in cp], 'range': [Q(rng_[0] / fr, ur), Q(rng_[1] / fr, ur)]}
+                st, res, text = load_presentation(ctx, [name], {}, [entry])
+                inp = {'file': text, 'single': True, 'shape': tag}
+                ctx.case(text, None)
+                ctx.count('boundary_cases')
+                if st == 'ok':
+                    o = L.obs_library(res)[name]
+                    check_against_expected(ctx, o, {'Tref': tref, 'H': Fraction(3, 2), 'S': Fraction(5, 2), 'cp': cp, 'range': rng_}, inp)
+                    continue
+                # which float conversions are inexact here?  (the implementation multiplies the number by the unit's SI factor)
+                noisy = [x for x, f in ((rng_[0], fr), (rng_[1], fr), (tref, ft)) if float(x / f) * float(f) != float(x)]
+                ctx.violation('a consistent library fails to load when coinciding temperatures are written in different units',
+                              inp, expected='loaded (it loads with every temperature in K)', observed=res,
+                              finding='YU1' if (res == 'inputData' and ur != ut and noisy) else None)
 
 
 def check_fixed(ctx, g, blk, form, batch):
